@@ -6,7 +6,7 @@ R2 the length guard admits the 2047-octet maximum; R3 per-call state lives in re
 from __future__ import annotations
 
 from sa.hdlcmodel import HdlcModel
-from sa.hdlcref import buffer_contracts, conformance, frozen_after_emit, length_guard, skeleton
+from sa.hdlcref import buffer_contracts, conformance, fresh_only_at_flag, frozen_after_emit, length_guard, skeleton
 
 LEVEL = "other"
 RULE = {"row": "R1", "admit": "R2", "locals": "R3", "lookahead": "R3", "chunk-flow": "R3", "frozen": "R4", "result": "R4", "buffer": "R1",
@@ -44,6 +44,7 @@ def check(src, rep):
     conf = conformance(m)
     emit(rep, m, conf, RULE, only=lambda r: r.instance in DEMANDED_ROWS)
     emit(rep, m, length_guard(m), RULE)
+    emit(rep, m, fresh_only_at_flag(m), {"start-at-flag": "R1"})
     emit(rep, m, skeleton(m), RULE)
     emit(rep, m, frozen_after_emit(m), RULE)
     emit(rep, m, buffer_contracts(m), RULE)
